@@ -47,6 +47,29 @@ CHECKS["C17"] = dict(
     note="Trusts TLC, BigInt (validated by MC_BigInt in C10) and the worker's canonical rendering; escapes the reference does not mention and non-integer exponent forms are logged, not judged.",
     design="§5 C17")
 
+_EV = "TLA+ spec PanEval (big-step semantics of the core language structured like the Go evaluator: frames, closures, argument binding, property/literal calls, errors, defers, truthiness, try); "
+_EVN = "Trusts TLC, the worker's canonical rendering and the harness built-ins say/probe; programs outside the PanEval fragment are discarded (counted in evidence), never judged."
+CHECKS["C03"] = dict(
+    technique=_EV + "runs recorded from the real interpreter (probe events = variable frames at statement boundaries, output, outcome) are validated against it by TLC (trace validation): exhaustive binding/closure grids + seeded random nested programs",
+    text="Every recorded run must be the single behaviour PanEval prescribes: frames visible inside calls, argument binding incl. padding/ignoring, keyword layouts, * and ** unpacking, argument variables, receiver passing, closures reading the defining scope.",
+    note=_EVN, design="§5 C03")
+CHECKS["C07"] = dict(
+    technique=_EV + "a raise is injected at every child position of every host construct under every nesting/handler; recorded runs are validated against PanEval by TLC (trace validation); leaked error objects are searched in every rendered value",
+    text="Exhaustive over hosts x positions x raise kinds x nestings x handlers: no marker after the raise, same kind/message at the handler (try / thoughtful chain) or program end, no raised error stored inside a value.",
+    note=_EVN, design="§5 C07")
+CHECKS["C08"] = dict(
+    technique=_EV + "side-effecting children in every slot: recorded effect order validated against PanEval by TLC; determinism (the spec is a function: out-degree 1) bound by N-fold repetition in and across processes, also for programs over maps/objects/JSON outside the fragment",
+    text="Order of evaluation is the specification's for every host construct; every program gives identical events/value in 16 (64) repetitions in each of 3 (8) processes, with and without re-parsing.",
+    note=_EVN + " Reproducibility of a Go map-order bug is probabilistic: survival probability 2^-(N-1) per 2-way choice.", design="§5 C08")
+CHECKS["C12"] = dict(
+    technique=_EV + "nine conditional constructs x condition-value pool validated against PanEval's single Truthy operator by TLC, plus TLC check of the law Agree (PanTruth) on the decision table recorded for the whole pool incl. typed descendants and user-defined B",
+    text="All constructs decide like the value's B property for every pool value; exactly one branch / at most one evaluation of the right operand; deciding operand returned (validated through PanEval where modelled).",
+    note=_EVN, design="§5 C12")
+CHECKS["C15"] = dict(
+    technique=_EV + "every body of n statements over the defer/exit alphabet in five calling contexts; recorded runs validated against PanEval by TLC (trace validation)",
+    text="Bounded-exhaustive over bodies (n<=3 quick, 4 thorough; 15 statement kinds incl. plain/guarded/raising defers, return, four raise kinds, nested callees with own defers) x {function, method, literal call, under try, nested function}: defers once, in order, after the body, on every exit; raising defer replaces the outcome and stops the rest.",
+    note=_EVN, design="§5 C15")
+
 NOT_YET = {}
 
 def main():
